@@ -38,10 +38,10 @@ func varName(v ssa.Value) (string, bool) {
 	switch v := v.(type) {
 	case *ssa.Alloc:
 		if v.Comment != "" && !strings.Contains(v.Comment, " ") && v.Comment != "complit" && v.Comment != "varargs" && v.Comment != "new" && v.Comment != "slicelit" && v.Comment != "makeslice" {
-			return v.Comment, true
+			return vname(v), true
 		}
 	case *ssa.FreeVar:
-		return v.Name(), true
+		return vname(v), true
 	}
 	return "", false
 }
@@ -111,9 +111,9 @@ func (t *termer) term(v ssa.Value, d int) string {
 	}
 	switch v := v.(type) {
 	case *ssa.Parameter:
-		return v.Name()
+		return vname(v)
 	case *ssa.FreeVar:
-		return "&" + v.Name()
+		return "&" + vname(v)
 	case *ssa.Alloc:
 		if n, ok := varName(v); ok {
 			return "&" + n
@@ -166,7 +166,7 @@ func (t *termer) term(v ssa.Value, d int) string {
 		return t.call(v.Common(), d)
 	case *ssa.Phi:
 		if t.visiting[v] {
-			return "φ" + v.Comment
+			return "φ" + vname(v)
 		}
 		t.visiting[v] = true
 		defer delete(t.visiting, v)
